@@ -77,7 +77,8 @@ def scan_unmodelled():
     """Constructs whose hash-order dependence the interceptor cannot see (set literals / comprehensions are real sets and
     ARE intercepted when iterated; what is not modelled: hash()/id() of str used for ordering, sorted(key=hash))."""
     hits = []
-    for path in sorted(glob.glob("/repo/d42/**/*.py", recursive=True)):
+    root = os.environ.get("VERIF_REPO") or "/repo"
+    for path in sorted(glob.glob(root + "/d42/**/*.py", recursive=True)):
         try:
             tree = ast.parse(open(path).read())
         except SyntaxError:
